@@ -10,9 +10,9 @@ import (
 
 // Evaluator evaluates a located site with Go's int semantics (int64), for failing-input search.
 type Evaluator struct {
-	fset  *token.FileSet
-	expr  ast.Expr
-	subst map[string]string
+	fset   *token.FileSet
+	expr   ast.Expr
+	subst  map[string]string
 	GoExpr string
 }
 
